@@ -486,7 +486,7 @@ Proof.
              key_path cert_path fs bin crypto H1 H2 H3 H4 H5 H6 H7 p md dt eks extra Hmd).
   unfold loaded. cbn [loaded_gen]. destruct (build_at fs p) as [[k c]|] eqn:B; cbn [ocons enc_build].
   - rewrite Nat.eqb_refl. reflexivity.
-  - destruct (loaded_gen true fs cf ld r) as [|[k c] l] eqn:L; [reflexivity|].
+  - destruct (loaded_gen V2 fs cf ld r) as [|[k c] l] eqn:L; [reflexivity|].
     replace (Nat.eqb (length l) (length ((k, c) :: l))) with false; [reflexivity|].
     symmetry. apply Nat.eqb_neq. cbn [length]. lia.
 Qed.
@@ -523,46 +523,48 @@ Qed.
 (* ---------------------------------------------------------------------------------------------------------------
    config.Config._load / Config.load_file: the loader of python configuration files, against Model.load_module.
    The interpreter's import machinery and os.path enter as functions of the call; the hypotheses say what they answer
-   in the loader state st (Model.lstate: configuration files on disk, sys.modules, the directories earlier loads put
-   on sys.path).  Directories and base names are numbers in the model; head_of / abs_of / base_name / file_name are
-   their spellings. *)
-Inductive lres := LMod (d c : nat) | LRaise (n : string).
+   in the loader state st (Model.lstate: configuration files and packages on disk, sys.modules, the directories earlier
+   loads put on sys.path).  Directories and base names are numbers in the model; head_of / abs_of / base_name /
+   file_name / pkg_name are their spellings. *)
+Inductive lres := LMod (d : nat) (pk : bool) (c : nat) | LRaise (n : string).
 
 (* importlib.import_module(base) once sys.path.insert(0, dir) is done: sys.modules first (keyed by the base name
-   alone), then the directories of sys.path in order *)
-Definition import_result (st : lstate) (d b : nat) : option (nat * nat) :=
+   alone), then the directories of sys.path in order (package before file) *)
+Definition import_result (st : lstate) (d b : nat) : option fmod :=
   match mod_find (mods st) b with
   | Some f => Some f
-  | None => path_find (cfiles st) (d :: spath st) b
+  | None => path_find (cfiles st) (pkgs st) (d :: spath st) b
   end.
 
-(* the module Config._load hands back: (directory it lies in, path its CONFIG names), or the exception *)
-Definition load_which (st : lstate) (d b : nat) : lres :=
+(* the module Config._load hands back: (directory it lies in, package?, path its CONFIG names), or the exception *)
+Definition load_which (st : lstate) (d b : nat) (bare : bool) : lres :=
   match import_result st d b with
   | None => LRaise "ModuleNotFoundError"
-  | Some (d0, c0) =>
+  | Some (d0, pk0, c0) =>
       match cf_read (cfiles st) d b with
-      | Some cnow => if Nat.eqb d0 d then LMod d0 c0
-                     else match cf_read (cfiles st) d0 b with
-                          | Some _ => LMod d cnow
+      | Some cnow => if negb pk0 && Nat.eqb d0 d then LMod d0 pk0 c0
+                     else match cf_read (if pk0 then pkgs st else cfiles st) d0 b with
+                          | Some _ => LMod d false cnow
                           | None => LRaise "FileNotFoundError"
                           end
-      | None => LMod d0 c0
+      | None => if bare || Nat.eqb d0 d then LMod d0 pk0 c0 else LRaise "ModuleNotFoundError"
       end
   end.
 
-Definition lres_content (r : lres) : option nat := match r with LMod _ c => Some c | LRaise _ => None end.
+Definition lres_content (r : lres) : option nat := match r with LMod _ _ c => Some c | LRaise _ => None end.
 
-(* ... is Model.load_module (current code) *)
-Lemma load_which_is_model st d b : lres_content (load_which st d b) = fst (load_module true st d b).
+(* ... is Model.load_module (current code, V2) *)
+Lemma load_which_is_model st d b bare : lres_content (load_which st d b bare) = fst (load_module V2 st d b bare).
 Proof.
   unfold load_which, import_result, load_module.
-  destruct (mod_find (mods st) b) as [[d0 c0]|]; cbn [fst answer].
-  - destruct (cf_read (cfiles st) d b); [|reflexivity]. destruct (Nat.eqb d0 d); [reflexivity|].
-    destruct (cf_read (cfiles st) d0 b); reflexivity.
-  - destruct (path_find (cfiles st) (d :: spath st) b) as [[d0 c0]|]; cbn [fst answer]; [|reflexivity].
-    destruct (cf_read (cfiles st) d b); [|reflexivity]. destruct (Nat.eqb d0 d); [reflexivity|].
-    destruct (cf_read (cfiles st) d0 b); reflexivity.
+  destruct (mod_find (mods st) b) as [[[d0 pk0] c0]|]; cbn [fst answer].
+  - destruct (cf_read (cfiles st) d b).
+    + destruct (negb pk0 && Nat.eqb d0 d); [reflexivity|]. destruct (cf_read _ d0 b); reflexivity.
+    + destruct (bare || Nat.eqb d0 d); reflexivity.
+  - destruct (path_find (cfiles st) (pkgs st) (d :: spath st) b) as [[[d0 pk0] c0]|]; cbn [fst answer]; [|reflexivity].
+    destruct (cf_read (cfiles st) d b).
+    + destruct (negb pk0 && Nat.eqb d0 d); [reflexivity|]. destruct (cf_read _ d0 b); reflexivity.
+    + destruct (bare || Nat.eqb d0 d); reflexivity.
 Qed.
 
 Section Loader.
@@ -570,44 +572,53 @@ Section Loader.
   Variables path_insert import_module path_join samefile spec_from_file exec_module : pyval -> pyval -> pyval.
   Variable st : lstate.
   Variables head_of abs_of base_name : nat -> string.     (* directory as given (may be ""), made absolute; base name *)
-  Variables fil_of file_name : nat -> nat -> string.      (* the argument of _load; the absolute name of dir/base.py *)
+  Variables fil_of file_name pkg_name : nat -> nat -> string.   (* the argument of _load; the absolute names of
+                                                                    dir/base.py and dir/base/__init__.py *)
   Variable config_of : nat -> pyval.                      (* the CONFIG dict that names path c *)
   Variable spec_of : nat -> nat -> pyval.                 (* the ModuleSpec for dir/base.py *)
   Variable s0 : string.
   Variable path_rest : list pyval.
 
-  Definition enc_mod (d b c : nat) : pyval :=
-    PObj [("__class__", PStr "module"); ("file", PStr (file_name d b)); ("CONFIG", config_of c)].
+  Definition mod_file (d : nat) (pk : bool) (b : nat) : string := if pk then pkg_name d b else file_name d b.
+  Definition enc_mod (d : nat) (pk : bool) (b c : nat) : pyval :=
+    PObj [("__class__", PStr "module"); ("file", PStr (mod_file d pk b)); ("CONFIG", config_of c)].
   Definition enc_lres (b : nat) (r : lres) : pyval :=
-    match r with LMod d c => enc_mod d b c | LRaise n => PExc n end.
+    match r with LMod d pk c => enc_mod d pk b c | LRaise n => PExc n end.
 
   Hypothesis split_spec : forall d b, path_split (PStr (fil_of d b)) = PList [PStr (head_of d); PStr (base_name b)].
   Hypothesis insert_spec : forall s, path_insert (PInt 0%Z) (PStr s) = PNone.
   (* answered with the directory just put in front of sys.path *)
   Hypothesis import_spec : forall d b,
     import_module (PStr (head_of d)) (PStr (base_name b)) =
-    match import_result st d b with Some (d0, c0) => enc_mod d0 b c0 | None => PExc "ModuleNotFoundError" end.
+    match import_result st d b with Some (d0, pk0, c0) => enc_mod d0 pk0 b c0 | None => PExc "ModuleNotFoundError" end.
   Hypothesis abspath_spec : forall d,
     abspath (if py_truthy (PStr (head_of d)) then PStr (head_of d) else PStr ".") = PStr (abs_of d).
+  (* a module's __file__ is absolute already *)
+  Hypothesis abspath_file : forall d pk b, abspath (PStr (mod_file d pk b)) = PStr (mod_file d pk b).
   Hypothesis join_spec : forall d b, path_join (PStr (abs_of d)) (PStr (base_name b ++ ".py")) = PStr (file_name d b).
-  Hypothesis file_name_nonempty : forall d b, is_empty (file_name d b) = false.
+  Hypothesis file_name_nonempty : forall d pk b, is_empty (mod_file d pk b) = false.
   Hypothesis isfile_spec : forall d b,
     isfile (PStr (file_name d b)) = PBool (match cf_read (cfiles st) d b with Some _ => true | None => false end).
-  Hypothesis samefile_spec : forall d0 d b,
-    samefile (PStr (file_name d0 b)) (PStr (file_name d b)) =
-    match cf_read (cfiles st) d0 b with Some _ => PBool (Nat.eqb d0 d) | None => PExc "FileNotFoundError" end.
+  Hypothesis samefile_spec : forall d0 pk0 d b,
+    samefile (PStr (mod_file d0 pk0 b)) (PStr (file_name d b)) =
+    match cf_read (if pk0 then pkgs st else cfiles st) d0 b with
+    | Some _ => PBool (negb pk0 && Nat.eqb d0 d)
+    | None => PExc "FileNotFoundError"
+    end.
+  (* a module lies inside the directory named iff it was found in that directory *)
+  Hypothesis inside_spec : forall d0 pk0 d b, startswith (mod_file d0 pk0 b) (abs_of d ++ "/") = Nat.eqb d0 d.
   Hypothesis spec_spec : forall d b, spec_from_file (PStr (base_name b)) (PStr (file_name d b)) = spec_of d b.
   Hypothesis spec_good : forall d b, is_bad (spec_of d b) = false.
   (* the module as exec_module leaves it: the file as it is NOW *)
   Hypothesis module_spec : forall d b,
     module_from_spec (spec_of d b) =
-    match cf_read (cfiles st) d b with Some c => enc_mod d b c | None => PExc "FileNotFoundError" end.
+    match cf_read (cfiles st) d b with Some c => enc_mod d false b c | None => PExc "FileNotFoundError" end.
   Hypothesis exec_spec : forall d b m, exec_module (spec_of d b) m = PNone.
 
   Theorem src2_config_load_module_is_model : forall self d b,
     src2_config_load_module path_split (PList (PStr s0 :: path_rest)) path_insert import_module abspath path_join isfile
       samefile spec_from_file module_from_spec exec_module self (PStr (fil_of d b))
-    = enc_lres b (load_which st d b).
+    = enc_lres b (load_which st d b (is_empty (head_of d))).
   Proof.
     intros self d b. unfold src2_config_load_module. cbv zeta. cbn [py_bind].
     rewrite split_spec. cbn [py_bind p2_unpack length Nat.eqb].
@@ -625,27 +636,40 @@ Section Loader.
       - rewrite insert_spec. reflexivity. }
     cbn [py_bind] in E |- *. rewrite E. clear E.
     rewrite import_spec. unfold load_which.
-    destruct (import_result st d b) as [[d0 c0]|]; [|reflexivity].
+    destruct (import_result st d b) as [[[d0 pk0] c0]|]; [|reflexivity].
     unfold enc_mod at 1. cbn [py_bind].
     assert (A : py_bind (p2_or (PStr (head_of d)) (PStr ".")) (fun a_4 => abspath a_4) = PStr (abs_of d)).
     { rewrite p2_or_good by reflexivity. pose proof (abspath_spec d) as A.
       destruct (py_truthy (PStr (head_of d))); cbn [py_bind]; exact A. }
     rewrite A. clear A. cbn [py_bind p2_fconcat p2_str s1 append].
     rewrite join_spec. cbn [py_bind].
-    change (p2_getattr3 (PObj [("__class__", PStr "module"); ("file", PStr (file_name d0 b)); ("CONFIG", config_of c0)]) "file" PNone)
-      with (PStr (file_name d0 b)).
-    cbn [py_bind]. rewrite p2_and_good by reflexivity. cbn [py_truthy]. rewrite file_name_nonempty. cbn [negb].
+    change (p2_getattr3 (PObj [("__class__", PStr "module"); ("file", PStr (mod_file d0 pk0 b)); ("CONFIG", config_of c0)]) "file" PNone)
+      with (PStr (mod_file d0 pk0 b)).
+    cbn [py_bind]. rewrite !(p2_and_good (PStr (mod_file d0 pk0 b))) by reflexivity. cbn [py_truthy].
+    rewrite file_name_nonempty. cbn [negb].
     rewrite isfile_spec. destruct (cf_read (cfiles st) d b) as [cnow|] eqn:W.
     - rewrite p2_and_good by reflexivity. cbn [py_truthy]. rewrite samefile_spec.
-      destruct (cf_read (cfiles st) d0 b) as [x|] eqn:F.
-      + destruct (Nat.eqb d0 d); cbn [p2_not s1 py_truthy negb p2_branch]; [reflexivity|].
-        rewrite spec_spec. rewrite (py_bind_good (spec_of d b)) by apply spec_good.
-        rewrite (py_bind_good (spec_of d b)) by apply spec_good. rewrite module_spec, W.
-        unfold enc_mod. cbn [py_bind]. rewrite exec_spec. reflexivity.
-      + destruct (Nat.eqb d0 d) eqn:E.
-        * apply Nat.eqb_eq in E. subst d0. congruence.
-        * reflexivity.
-    - rewrite p2_and_good by reflexivity. cbn [py_truthy]. rewrite p2_branch_bool. reflexivity.
+      destruct (cf_read (if pk0 then pkgs st else cfiles st) d0 b) as [x|] eqn:F.
+      + destruct (negb pk0 && Nat.eqb d0 d).
+        * (* the module found IS the file asked for: second test, the file is there *)
+          change (p2_not (PBool true)) with (PBool false). cbn [p2_branch py_truthy].
+          rewrite p2_and_good by reflexivity. destruct (py_truthy (PStr (head_of d))) eqn:T; [reflexivity|].
+          rewrite p2_branch_good by reflexivity. rewrite T. reflexivity.
+        * change (p2_not (PBool false)) with (PBool true). cbn [p2_branch py_truthy]. rewrite spec_spec. rewrite (py_bind_good (spec_of d b)) by apply spec_good.
+          rewrite (py_bind_good (spec_of d b)) by apply spec_good. rewrite module_spec, W.
+          unfold enc_mod. cbn [py_bind]. rewrite exec_spec. reflexivity.
+      + destruct (negb pk0 && Nat.eqb d0 d) eqn:E; [|reflexivity].
+        apply andb_true_iff in E as [E1 E2]. apply negb_true_iff in E1. apply Nat.eqb_eq in E2. subst pk0 d0. congruence.
+    - rewrite p2_and_good by reflexivity. cbn [py_truthy p2_branch p2_not s1 negb].
+      rewrite p2_and_good by reflexivity. cbn [py_truthy]. destruct (is_empty (head_of d)) eqn:Eh; cbn [negb orb].
+      + (* a bare name: today's behaviour *)
+        destruct (head_of d); [reflexivity|discriminate].
+      + cbn [p2_branch py_truthy]. rewrite abspath_file. cbn [py_bind].
+        pose proof (abspath_spec d) as A. cbn [py_truthy] in A. rewrite Eh in A. cbn [negb] in A. rewrite A.
+        change (p2_add (PStr (abs_of d)) (PStr "/")) with (PStr (abs_of d ++ "/")).
+        change (p2_startswith (PStr (mod_file d0 pk0 b)) (PStr (abs_of d ++ "/")))
+          with (PBool (startswith (mod_file d0 pk0 b) (abs_of d ++ "/"))).
+        rewrite inside_spec. destruct (Nat.eqb d0 d); reflexivity.
   Qed.
 
   (* Config.load_file(name): ".py" is cut off, the module is loaded, its CONFIG is deep-copied and handed to
@@ -657,14 +681,14 @@ Section Loader.
   Hypothesis deepcopy_spec : forall c, deepcopy (config_of c) = config_of c.
 
   Definition enc_loaded (self : pyval) (b : nat) (r : lres) : pyval :=
-    match r with LMod _ c => config_load self (config_of c) | LRaise n => PExc n end.
+    match r with LMod _ _ c => config_load self (config_of c) | LRaise n => PExc n end.
 
   Lemma load_file_tail self b r :
     py_bind (enc_lres b r)
       (fun v_mod => py_bind (py_bind (p2_attr v_mod "CONFIG") (fun a_2 => deepcopy a_2)) (fun a_3 => config_load self a_3))
     = enc_loaded self b r.
   Proof.
-    destruct r as [d c|n]; [|reflexivity]. unfold enc_lres, enc_mod. cbn [py_bind].
+    destruct r as [d pk c|n]; [|reflexivity]. unfold enc_lres, enc_mod. cbn [py_bind].
     change (p2_attr _ "CONFIG") with (config_of c).
     rewrite (py_bind_good (config_of c)) by apply config_good. rewrite deepcopy_spec.
     rewrite (py_bind_good (config_of c)) by apply config_good. reflexivity.
@@ -711,16 +735,19 @@ End Loader.
 (* a DLoadFile step of Model.loaded is that load followed by the constructor *)
 Corollary loaded_load_file fs cf st d b a sp r :
   loaded fs cf st (DLoadFile d b a sp :: r)
-  = build_slot fs (lres_content (load_which st d b)) :: loaded fs cf (snd (load_module true st d b)) r.
+  = build_slot fs (lres_content (load_which st d b (is_bare sp)))
+    :: loaded fs cf (snd (load_module V2 st d b (is_bare sp))) r.
 Proof.
-  unfold loaded. cbn [loaded_gen]. rewrite load_which_is_model. destruct (load_module true st d b); reflexivity.
+  unfold loaded. cbn [loaded_gen]. rewrite load_which_is_model. destruct (load_module V2 st d b (is_bare sp)); reflexivity.
 Qed.
 
-(* the hypotheses of Section Loader are satisfiable: directories and base names are spelt by their length, a file
-   name is <ones d>/<ones b>; two tenant directories hold a file of base name 0, a module of that name is loaded *)
+(* the hypotheses of Section Loader are satisfiable: directories and base names are spelt by their length; the file
+   dir/base.py is <ones d>/<ones b>, the package dir/base/__init__.py is <ones d>/<ones b>/i *)
 Fixpoint lead1 (s : string) : nat := match s with String "1" r => S (lead1 r) | _ => 0 end.
 Fixpoint after_slash (s : string) : string :=
   match s with String "/" r => r | String _ r => after_slash r | EmptyString => EmptyString end.
+Fixpoint has_slash (s : string) : bool :=
+  match s with String "/" _ => true | String _ r => has_slash r | EmptyString => false end.
 
 Lemma lead1_ones d r : lead1 (ones d ++ String "/" r) = d.
 Proof. induction d as [|d IH]; [reflexivity|]. cbn [ones append lead1]. rewrite IH. reflexivity. Qed.
@@ -728,100 +755,128 @@ Lemma lead1_ones_end b : lead1 (ones b) = b.
 Proof. induction b as [|b IH]; [reflexivity|]. cbn [ones lead1]. rewrite IH. reflexivity. Qed.
 Lemma after_slash_ones d r : after_slash (ones d ++ String "/" r) = r.
 Proof. induction d as [|d IH]; [reflexivity|]. cbn [ones append after_slash]. exact IH. Qed.
+Lemma has_slash_ones d : has_slash (ones d) = false.
+Proof. induction d as [|d IH]; [reflexivity|]. exact IH. Qed.
+Lemma has_slash_ones_slash d r : has_slash (ones d ++ String "/" r) = true.
+Proof. induction d as [|d IH]; [reflexivity|]. exact IH. Qed.
 Lemma length_app_str a b : String.length (a ++ b) = String.length a + String.length b.
 Proof. induction a as [|c a IH]; [reflexivity|]. cbn [append String.length]. rewrite IH. reflexivity. Qed.
+Lemma prefix_ones d0 d r : String.prefix (ones d ++ "/") (ones d0 ++ String "/" r) = Nat.eqb d0 d.
+Proof.
+  revert d0; induction d as [|d IH]; intros d0.
+  - destruct d0; cbn [ones append String.prefix Nat.eqb].
+    + destruct (ascii_dec "/" "/") as [_|N]; [destruct r; reflexivity|contradiction N; reflexivity].
+    + destruct (ascii_dec "/" "1") as [E|_]; [discriminate E|reflexivity].
+  - destruct d0; [cbn [ones append String.prefix Nat.eqb]; destruct (ascii_dec "1" "/") as [E|_]; [discriminate E|reflexivity]|].
+    cbn [ones append String.prefix Nat.eqb]. destruct (ascii_dec "1" "1") as [_|N]; [apply IH|contradiction N; reflexivity].
+Qed.
 
 Definition ex_state : lstate :=
-  {| cfiles := [((0, 0), Some 0); ((1, 0), Some 1)]; mods := [(0, (0, 0))]; spath := [0] |}.
+  {| cfiles := [((0, 0), Some 0); ((1, 0), Some 1)]; pkgs := [((3, 0), Some 2)]; mods := [(0, (0, false, 0))]; spath := [0] |}.
 Definition ex_file (d b : nat) : string := ones d ++ String "/" (ones b).
+Definition ex_pkg (d b : nat) : string := ones d ++ String "/" (ones b ++ "/i").
 Definition ex_dir (s : string) : nat := lead1 s.
 Definition ex_base (s : string) : nat := lead1 (after_slash s).
+Definition ex_is_pkg (s : string) : bool := has_slash (after_slash s).
 Definition ex_config (c : nat) : pyval := PObj [("key_file", PInt (Z.of_nat c))].
 Definition ex_spec (d b : nat) : pyval := PObj [("__class__", PStr "ModuleSpec"); ("origin", PStr (ex_file d b))].
-Definition ex_mod (d b c : nat) : pyval :=
-  PObj [("__class__", PStr "module"); ("file", PStr (ex_file d b)); ("CONFIG", ex_config c)].
 
 Example loader_hypotheses_satisfiable :
   exists (path_split abspath isfile module_from_spec : pyval -> pyval)
          (path_insert import_module path_join samefile spec_from_file exec_module : pyval -> pyval -> pyval)
-         (head_of abs_of base_name : nat -> string) (fil_of file_name : nat -> nat -> string)
+         (head_of abs_of base_name : nat -> string) (fil_of file_name pkg_name : nat -> nat -> string)
          (config_of : nat -> pyval) (spec_of : nat -> nat -> pyval) (deepcopy : pyval -> pyval),
     (forall d b, path_split (PStr (fil_of d b)) = PList [PStr (head_of d); PStr (base_name b)]) /\
     (forall s, path_insert (PInt 0%Z) (PStr s) = PNone) /\
     (forall d b, import_module (PStr (head_of d)) (PStr (base_name b)) =
                  match import_result ex_state d b with
-                 | Some (d0, c0) => enc_mod file_name config_of d0 b c0
+                 | Some (d0, pk0, c0) => enc_mod file_name pkg_name config_of d0 pk0 b c0
                  | None => PExc "ModuleNotFoundError"
                  end) /\
     (forall d, abspath (if py_truthy (PStr (head_of d)) then PStr (head_of d) else PStr ".") = PStr (abs_of d)) /\
+    (forall d pk b, abspath (PStr (mod_file file_name pkg_name d pk b)) = PStr (mod_file file_name pkg_name d pk b)) /\
     (forall d b, path_join (PStr (abs_of d)) (PStr (base_name b ++ ".py")) = PStr (file_name d b)) /\
-    (forall d b, is_empty (file_name d b) = false) /\
+    (forall d pk b, is_empty (mod_file file_name pkg_name d pk b) = false) /\
     (forall d b, isfile (PStr (file_name d b)) =
                  PBool (match cf_read (cfiles ex_state) d b with Some _ => true | None => false end)) /\
-    (forall d0 d b, samefile (PStr (file_name d0 b)) (PStr (file_name d b)) =
-                    match cf_read (cfiles ex_state) d0 b with
-                    | Some _ => PBool (Nat.eqb d0 d)
-                    | None => PExc "FileNotFoundError"
-                    end) /\
+    (forall d0 pk0 d b, samefile (PStr (mod_file file_name pkg_name d0 pk0 b)) (PStr (file_name d b)) =
+                        match cf_read (if pk0 then pkgs ex_state else cfiles ex_state) d0 b with
+                        | Some _ => PBool (negb pk0 && Nat.eqb d0 d)
+                        | None => PExc "FileNotFoundError"
+                        end) /\
+    (forall d0 pk0 d b, startswith (mod_file file_name pkg_name d0 pk0 b) (abs_of d ++ "/") = Nat.eqb d0 d) /\
     (forall d b, spec_from_file (PStr (base_name b)) (PStr (file_name d b)) = spec_of d b) /\
     (forall d b, is_bad (spec_of d b) = false) /\
     (forall d b, module_from_spec (spec_of d b) =
                  match cf_read (cfiles ex_state) d b with
-                 | Some c => enc_mod file_name config_of d b c
+                 | Some c => enc_mod file_name pkg_name config_of d false b c
                  | None => PExc "FileNotFoundError"
                  end) /\
     (forall d b m, exec_module (spec_of d b) m = PNone) /\
     (forall c, is_bad (config_of c) = false) /\ (forall c, deepcopy (config_of c) = config_of c) /\
-    (* the second tenant's file of the name already loaded: its own file is executed; a file that is not there:
-       the module loaded from the other directory (C20-F3) *)
-    load_which ex_state 1 0 = LMod 1 1 /\ load_which ex_state 0 0 = LMod 0 0 /\ load_which ex_state 2 0 = LMod 0 0 /\
-    load_which ex_state 2 1 = LRaise "ModuleNotFoundError".
+    (* the second tenant's file of the name already loaded: its own file is executed; a file that is not there: with its
+       directory ModuleNotFoundError (581b4f03), by its bare name the module loaded from directory 0; a package
+       directory of that name: the module loaded from directory 0 lies outside it *)
+    load_which ex_state 1 0 false = LMod 1 false 1 /\ load_which ex_state 0 0 false = LMod 0 false 0 /\
+    load_which ex_state 2 0 false = LRaise "ModuleNotFoundError" /\ load_which ex_state 2 0 true = LMod 0 false 0 /\
+    load_which ex_state 3 0 false = LRaise "ModuleNotFoundError" /\ load_which ex_state 2 1 false = LRaise "ModuleNotFoundError".
 Proof.
   exists (fun v => match v with
                    | PStr s => PList [PStr (String "h" (ones (ex_dir s))); PStr (String "m" (ones (ex_base s)))]
                    | _ => PErr end),
-         (fun v => match v with PStr s => PStr (String "a" (ones (String.length s - 1))) | _ => PErr end),
+         (fun v => match v with
+                   | PStr s => if has_slash s then PStr s else PStr (ones (String.length s - 1))
+                   | _ => PErr end),
          (fun v => match v with
                    | PStr s => PBool (match cf_read (cfiles ex_state) (ex_dir s) (ex_base s) with Some _ => true | None => false end)
                    | _ => PErr end),
          (fun v => match v with
                    | PObj [_; (_, PStr s)] => match cf_read (cfiles ex_state) (ex_dir s) (ex_base s) with
-                                              | Some c => ex_mod (ex_dir s) (ex_base s) c
+                                              | Some c => enc_mod ex_file ex_pkg ex_config (ex_dir s) false (ex_base s) c
                                               | None => PExc "FileNotFoundError"
                                               end
                    | _ => PErr end),
          (fun _ _ => PNone),
          (fun h m => match h, m with
                      | PStr h, PStr m => match import_result ex_state (String.length h - 1) (String.length m - 1) with
-                                         | Some (d0, c0) => ex_mod d0 (String.length m - 1) c0
+                                         | Some (d0, pk0, c0) => enc_mod ex_file ex_pkg ex_config d0 pk0 (String.length m - 1) c0
                                          | None => PExc "ModuleNotFoundError"
                                          end
                      | _, _ => PErr end),
          (fun a m => match a, m with
-                     | PStr a, PStr m => PStr (ex_file (String.length a - 1) (String.length m - 4))
+                     | PStr a, PStr m => PStr (ex_file (String.length a) (String.length m - 4))
                      | _, _ => PErr end),
          (fun f0 f => match f0, f with
-                      | PStr f0, PStr f => match cf_read (cfiles ex_state) (ex_dir f0) (ex_base f0) with
-                                           | Some _ => PBool (Nat.eqb (ex_dir f0) (ex_dir f))
-                                           | None => PExc "FileNotFoundError"
-                                           end
+                      | PStr f0, PStr f =>
+                          match cf_read (if ex_is_pkg f0 then pkgs ex_state else cfiles ex_state) (ex_dir f0) (ex_base f0) with
+                          | Some _ => PBool (negb (ex_is_pkg f0) && Nat.eqb (ex_dir f0) (ex_dir f))
+                          | None => PExc "FileNotFoundError"
+                          end
                       | _, _ => PErr end),
          (fun _ f => PObj [("__class__", PStr "ModuleSpec"); ("origin", f)]),
          (fun _ _ => PNone),
-         (fun d => String "h" (ones d)), (fun d => String "a" (ones d)), (fun b => String "m" (ones b)),
-         ex_file, ex_file, ex_config, ex_spec, (fun v => v).
-  assert (D : forall d b, ex_dir (ex_file d b) = d) by (intros; apply lead1_ones).
-  assert (B : forall d b, ex_base (ex_file d b) = b)
-    by (intros d b; unfold ex_base, ex_file; rewrite after_slash_ones; apply lead1_ones_end).
+         (fun d => String "h" (ones d)), (fun d => ones d), (fun b => String "m" (ones b)),
+         ex_file, ex_file, ex_pkg, ex_config, ex_spec, (fun v => v).
+  assert (D : forall d pk b, ex_dir (mod_file ex_file ex_pkg d pk b) = d) by (intros d [|] b; apply lead1_ones).
+  assert (B : forall d pk b, ex_base (mod_file ex_file ex_pkg d pk b) = b).
+  { intros d [|] b; unfold ex_base, mod_file, ex_file, ex_pkg; rewrite after_slash_ones;
+      [apply lead1_ones|apply lead1_ones_end]. }
+  assert (K : forall d pk b, ex_is_pkg (mod_file ex_file ex_pkg d pk b) = pk).
+  { intros d [|] b; unfold ex_is_pkg, mod_file, ex_file, ex_pkg; rewrite after_slash_ones;
+      [apply has_slash_ones_slash|apply has_slash_ones]. }
   assert (L : forall c n, String.length (String c (ones n)) - 1 = n)
     by (intros c n; cbn [String.length]; rewrite ones_len; lia).
+  assert (D0 : forall d b, ex_dir (ex_file d b) = d) by (intros d b; exact (D d false b)).
+  assert (B0 : forall d b, ex_base (ex_file d b) = b) by (intros d b; exact (B d false b)).
   repeat split; try reflexivity.
-  - intros d b. rewrite D, B. reflexivity.
+  - intros d b. rewrite D0, B0. reflexivity.
   - intros d b. rewrite !L. reflexivity.
-  - intros d. cbn [py_truthy is_empty negb]. rewrite L. reflexivity.
-  - intros d b. rewrite L. f_equal. f_equal. rewrite length_app_str. cbn [String.length]. rewrite ones_len. lia.
-  - intros d b. unfold ex_file. destruct d; reflexivity.
-  - intros d b. rewrite D, B. reflexivity.
-  - intros d0 d b. rewrite !D, B. reflexivity.
-  - intros d b. unfold ex_spec. rewrite D, B. reflexivity.
+  - intros d. cbn [py_truthy is_empty negb has_slash]. rewrite has_slash_ones, L. reflexivity.
+  - intros d pk b. destruct pk; unfold mod_file, ex_file, ex_pkg; rewrite has_slash_ones_slash; reflexivity.
+  - intros d b. rewrite ones_len. f_equal. f_equal. rewrite length_app_str. cbn [String.length]. rewrite ones_len. lia.
+  - intros d pk b. destruct pk; unfold mod_file, ex_file, ex_pkg; destruct d; reflexivity.
+  - intros d b. rewrite D0, B0. reflexivity.
+  - intros d0 pk0 d b. rewrite K, D, B, D0. reflexivity.
+  - intros d0 pk0 d b. unfold startswith. destruct pk0; unfold mod_file, ex_file, ex_pkg; apply prefix_ones.
+  - intros d b. unfold ex_spec. rewrite D0, B0. reflexivity.
 Qed.
